@@ -28,3 +28,13 @@ PROPS['C07'] = dict(
     assumptions=[],
     explanation="",
 )
+
+from contracts import iodrawer
+PROPS['C16'] = dict(
+    units=list(iodrawer.HLOG_UNITS),
+    extra=[iodrawer.hlog_grammar_bounded],
+    level='proof',
+    min_obligations=15,
+    assumptions=[],
+    explanation="",
+)
